@@ -46,6 +46,29 @@ theorem agrees_with_standard :
     (∀ r ∈ periodicTable, iupac.lookup r.z = some r.sym) ∧
     (∀ p ∈ iupac, (fromNumber p.1).map (·.sym) = some p.2) := by decide +kernel
 
+theorem rows_in_standard_range :
+    ∀ r ∈ periodicTable, 1 ≤ r.z ∧ r.z ≤ 118 ∧ iupac.lookup r.z = some r.sym := by decide +kernel
+
+/-- The lookups answer only for entries of the standard table: a number outside 1…118 or a string that is not a
+standard symbol is rejected (unbounded in `n` and `s`; the correspondence check runs the live lookups, including the
+Query*/Dynamic* variants, on numbers −260…0 and 119…399 and on every one/two letter non-symbol). -/
+theorem lookups_only_in_table :
+    (∀ n r, fromNumber n = some r → 1 ≤ n ∧ n ≤ 118 ∧ iupac.lookup n = some r.sym) ∧
+    (∀ s r, fromSymbol s = some r → r.sym = s ∧ iupac.lookup r.z = some s) := by
+  refine ⟨fun n r h => ?_, fun s r h => ?_⟩
+  · have hm : r ∈ periodicTable := by
+      have := List.mem_of_find?_eq_some h
+      simpa using this
+    have hz : r.z = n := by simpa using List.find?_some h
+    have := rows_in_standard_range r hm
+    subst hz; exact this
+  · have hm : r ∈ periodicTable := List.mem_of_find?_eq_some h
+    have hs : r.sym = s := by simpa using List.find?_some h
+    have := rows_in_standard_range r hm
+    subst hs; exact ⟨rfl, this.2.2⟩
+
+example : fromNumber 0 = none ∧ fromNumber 119 = none ∧ fromSymbol "Xx" = none ∧ fromSymbol "h" = none := by decide +kernel
+
 /-! ## clause 2: isotope tables -/
 
 /-- Full statement: abundance and mass tables have the same keys. -/
